@@ -32,6 +32,8 @@ inductive Decl where
   | bundle (name : Str) (deps : List Str)
   | fileSet (name : Str) (files : List Str) (includes : List Str)
   | sub (dirs : List Str)
+  /-- `n` statements that jsonx rejects (syntax errors, unknown rule types, unknown fields) -/
+  | garbage (n : Nat)
   deriving DecidableEq, Repr
 
 inductive NTyp where
@@ -60,6 +62,7 @@ structure Cfg where
   includeResolved : Bool
 
 inductive LErr where
+  | syntax (dir : Str)          -- jsonx.ReadSeriesFile: the build file does not parse (the whole file is dropped)
   | noName (dir : Str)          -- build_file.go: "rule has no name" (the whole file is dropped)
   | emptyName                   -- register: "node name is empty"
   | dup (name : Str)            -- register: "node with name … redeclared"
@@ -80,7 +83,12 @@ def optStep {α σ : Type} (g : α → σ → Option σ) (acc : Option σ) (d : 
 inductive Ev where
   | reg (n : Node)
   | fileErr (dir : Str)
+  | syntaxErr (dir : Str)
   deriving DecidableEq, Repr
+
+def isGarbage : Decl → Bool
+  | .garbage n => n != 0
+  | _ => false
 
 def lookupFile (ws : Ws) (p : Str) : Option (List Decl) :=
   (ws.files.find? (fun f => f.1 = p)).map (·.2)
@@ -108,6 +116,7 @@ def resolveFile (cfg : Cfg) (p : Str) : List Decl → Option (List Node × List 
           some (⟨nm, .rule, sortDedup (files.map (makePath p)) ++ incs'⟩ ::
                 ⟨nm ++ filesetSuffix, .out, [nm]⟩ :: ns, subs)
       | .sub dirs => some (ns, dirs.map (makeRelPath p) ++ subs)
+      | .garbage _ => some (ns, subs)
 
 /-- `loader.readBuildFile(p)` as the list of events it produces, threading the
     set of directories already read (used only by the repaired loader) -/
@@ -120,6 +129,9 @@ def collect (cfg : Cfg) (ws : Ws) : Nat → Str → List Str → Option (List Ev
       match lookupFile ws p with
       | none => some ([], seen)
       | some decls =>
+        -- jsonx parses the whole file first: any rejected statement drops the file
+        if decls.any isGarbage then some ([.syntaxErr p], seen)
+        else
         match resolveFile cfg p decls with
         | none => some ([.fileErr p], seen)
         | some (ns, subs) =>
@@ -152,6 +164,7 @@ def register (st : LState) (n : Node) : LState :=
 def applyEv (st : LState) : Ev → LState
   | .reg n => register st n
   | .fileErr d => { st with errs := st.errs ++ [.noName d] }
+  | .syntaxErr d => { st with errs := st.errs ++ [.syntax d] }
 
 def registerAll (evs : List Ev) : LState := evs.foldl applyEv {}
 
